@@ -311,6 +311,15 @@ Record senv := { se_force : bool; se_frames : nat; se_unk : nat -> bool; se_new 
 
 Definition farg_val (E : senv) (f : farg) : bool := match f with FPass => se_force E | FLit b => b end.
 
+Fixpoint for_loop (body : path -> fs -> outcome * fs) (base : path) (cnt i : nat) (F : fs) : outcome * fs :=
+  match cnt with
+  | 0 => (Normal, F)
+  | S cnt' => match body (numbered base i) F with
+              | (Normal, F') => for_loop body base cnt' (S i) F'
+              | (Error, F') => (Error, F')
+              end
+  end.
+
 Fixpoint srun (p : sstmt) (E : senv) (base cur : path) (F : fs) : outcome * fs :=
   match p with
   | SSkip => (Normal, F)
@@ -320,15 +329,7 @@ Fixpoint srun (p : sstmt) (E : senv) (base cur : path) (F : fs) : outcome * fs :
                                        (F cur) (se_new E (snd cur)) in
       (o, upd F cur n')
   | SIfOne a b => if Nat.eqb (se_frames E) 1 then srun a E base cur F else srun b E base cur F
-  | SFor body =>
-      (fix loop (cnt i : nat) (F : fs) : outcome * fs :=
-         match cnt with
-         | 0 => (Normal, F)
-         | S cnt' => match srun body E base (numbered base i) F with
-                     | (Normal, F') => loop cnt' (S i) F'
-                     | (Error, F') => (Error, F')
-                     end
-         end) (se_frames E) 1 F
+  | SFor body => for_loop (fun c G => srun body E base c G) base (se_frames E) 1 F
   | SSeq a b => match srun a E base cur F with
                 | (Normal, F') => srun b E base cur F'
                 | (Error, F') => (Error, F')
